@@ -1183,8 +1183,18 @@ package zygo
 //@ C06 ensures comma: typeis(sx, *SexpComma) ==> r1 == nil && r0 == 15
 //@ C06 ensures operands-and-separators: typeis(sx, *SexpInt) || typeis(sx, *SexpFloat) || typeis(sx, *SexpBool) || typeis(sx, *SexpStr) || typeis(sx, *SexpSemicolon) || typeis(sx, *SexpPair) || typeis(sx, *SexpHash) ==> r1 == nil && r0 == 0
 
+// curNode(p): the token the innermost Expression frame is working on (the representation of
+// the frame stack is in this one macro). Indexing and field access build their result from it.
+//@ macro curNode(p *Pratt) Sexp = p.CnodeStack[0]
+//@ func dotOpMunchLeft
+//@ C06 assert field-is-the-current-node @before call MakeList[0]: len(arg0) == 3 && arg0[1] == left && arg0[2] == curNode(pr)
+//@ func arrayOpMunchLeft
+//@ ghost sel := ret0 @after call normalizeArraySelector[0]
+//@ C06 assert selector-is-the-current-node @before call normalizeArraySelector[0]: arg1 == curNode(pr)
+//@ C06 assert indexes-the-left-operand @before call MakeList[0]: len(arg0) == 3 && arg0[1] == left && arg0[2] == sel
 // the precedence loop: an operator is consumed only when it binds tighter than the caller's power
 //@ func (*Pratt).Expression
+//@ C06 assert operator-is-the-current-node @before call MunchLeft[0]: curNode(p) == cnode
 //@ C06 assert consumes-only-tighter @before call MunchLeft[0]: rbp < nextLbp && arg1 == p && arg2 == p.AccumTree
 
 // The code of a template only produces operands of the squash / vectorize / hashize that
